@@ -114,8 +114,9 @@ def eccentricity_derivative(
     dR_dw_1 = -1. * beta_invr * mass_2 * dU_dw_1
 
     # Correct for zero eccentricity
-    de_dt = (np.abs(denom) <= float_eps) * 0. + \
-            (np.abs(denom) > float_eps) * (e_term1 / denom) * (e_term1 * dR_dM - dR_dw_1)
+    # Guard the division so that e = 0 gives de/dt = 0 rather than a ZeroDivisionError (floats) or NaN (arrays).
+    denom_safe = denom + (np.abs(denom) <= float_eps) * 1.
+    de_dt = (np.abs(denom) > float_eps) * (e_term1 / denom_safe) * (e_term1 * dR_dM - dR_dw_1)
 
     return de_dt
 
@@ -168,7 +169,8 @@ def semia_eccen_derivatives(
     denom = orbital_motion * semi_major_axis * semi_major_axis * eccentricity
 
     # Correct for zero eccentricity
-    de_dt = (np.abs(denom) <= float_eps) * 0. + \
-            (np.abs(denom) > float_eps) * (e_term1 / denom) * (e_term1 * dR_dM - dR_dw_1)
+    # Guard the division so that e = 0 gives de/dt = 0 rather than a ZeroDivisionError (floats) or NaN (arrays).
+    denom_safe = denom + (np.abs(denom) <= float_eps) * 1.
+    de_dt = (np.abs(denom) > float_eps) * (e_term1 / denom_safe) * (e_term1 * dR_dM - dR_dw_1)
 
     return da_dt, de_dt
